@@ -659,3 +659,53 @@ func c16ptViewFollowsCluster(c *an.Ctx) {
 		f.Guarded(r, rets, "early return only when the view already has the cluster's partition count", an.AtomLike(`^p1==uint32\(len\(.*DBPtView\(p0\)\)\)$`, true))
 	}
 }
+
+// epochSentinel — C15.R8 / C16.R8.  MarshalTime encodes the zero time.Time AND 1970-01-01T00:00:00Z
+// as 0.  Group boundaries are never the zero time, so the decoders of ShardGroupInfo and
+// IndexGroupInfo read 0 back as the epoch.  Without that branch a group that starts or ends
+// exactly at the epoch comes back from a snapshot as [year 1, …): the restored replica's groups
+// are stretched, overlap, and it skips CreateShardGroup commands the other replicas execute.
+func epochSentinel(c *an.Ctx, id string) {
+	const M = "lib/util/lifted/influx/meta"
+	r := c.Rule(id, "K-CONTRACT(writer/reader)", M+": ShardGroupInfo/IndexGroupInfo.unmarshal read an encoded 0 boundary back as the epoch (MarshalTime writes the epoch as 0)")
+	n := 0
+	for _, t := range []string{"ShardGroupInfo", "IndexGroupInfo"} {
+		f := fn(r, M+":"+t+".unmarshal")
+		if f == nil {
+			continue
+		}
+		for _, fld := range []string{"StartTime", "EndTime"} {
+			fo := obj(r, M+":"+t+"."+fld)
+			if fo == nil {
+				continue
+			}
+			epoch := f.Find(an.MStore(t+"."+fld+" = time.Unix(0, 0)", fo, func(g *an.Fn, e ast.Expr) bool {
+				return strings.Contains(g.Canon(e), "time.Unix(0,0)")
+			}))
+			n += epoch.Len()
+			if epoch.Len() == 0 {
+				r.Fail(t+".unmarshal: "+fld+" at the epoch", c.P.Pos(f.Body.Pos()), "%s.unmarshal no longer maps an encoded 0 %s to the epoch: MarshalTime writes both the zero time and the epoch as 0, so a boundary exactly at the epoch is restored as year 1", t, fld)
+				continue
+			}
+			f.Guarded(r, epoch, fld+" becomes the epoch exactly when the encoded value is 0", an.AtomLike(`^0==p0\.Get`+fld+`\(\)$`, true))
+		}
+	}
+	r.AddSites(n)
+}
+
+func init() {
+	old16 := All["C16"].Run
+	All["C16"].Run = func(c *an.Ctx) {
+		old16(c)
+		epochSentinel(c, "C16.R8")
+	}
+	All["C16"].Rules += " R8"
+	old15 := All["C15"].Run
+	All["C15"].Run = func(c *an.Ctx) {
+		old15(c)
+		epochSentinel(c, "C15.R8")
+	}
+	All["C15"].Rules += " R8"
+	addLevel("C15", "the group decoders read an encoded 0 boundary back as the epoch (writer/reader sentinel agreement with MarshalTime).")
+	addLevel("C16", "the group decoders read an encoded 0 boundary back as the epoch (a restored catalogue keeps groups that touch the epoch aligned and disjoint).")
+}
